@@ -33,7 +33,7 @@ func (r *Run) OwnMapOrder(on bool) { r.mapOrder = on }
 func Map[K comparable, V any](m map[K]V) iter.Seq2[K, V] {
 	return func(yield func(K, V) bool) {
 		r := cur.Load()
-		if r == nil || !r.mapOrder || len(m) == 0 {
+		if RaceMode || r == nil || !r.mapOrder || len(m) == 0 { // (race lane: tasks run in parallel and must not share the tape)
 			for k, v := range m {
 				if !yield(k, v) {
 					return
